@@ -17,7 +17,7 @@ RULE = ('case = block of load/unload histories (exhaustive enumeration by index)
         'checked; non-trivial history = at least one unload followed by a load, or two loaded keys sharing an alias; distinct = distinct histories '
         '(digest of the operation sequence); the evidence also reports distinct abstract index states (multiset of loaded objects) visited')
 ASSUMPTIONS = ['identifiers are computed from public attributes of the key objects (fingerprint, userids)']
-MIN_COUNTERS = {'quick': {'histories': 90000, 'steps_checked': 150000, 'selections_checked': 2000000, 'walk_steps': 300, 'multi_key_loads': 20, 'multi_issuer_selections': 300},
+MIN_COUNTERS = {'quick': {'histories': 90000, 'steps_checked': 150000, 'selections_checked': 2000000, 'walk_steps': 300, 'multi_key_loads': 20, 'multi_issuer_selections': 300, 'subkey_issued_selections': 30},
                 'thorough': {'histories': 1000000}}
 BUDGET = {'quick': (600, 1500), 'thorough': (2400, 3600)}
 TECHNIQUE = 'runtime monitoring: bounded-exhaustive history enumeration + random walks against a shadow model; invariants checked after every step'
@@ -49,6 +49,9 @@ def universe():
                 for name, comment, email in UIDS[i]:
                     k.add_uid(pgpy.PGPUID.new(name, comment=comment, email=email), usage={KeyFlags.Sign, KeyFlags.Certify})
                 k.add_subkey(pool.pgpy_bare(SUBS[i], created=pool.created_with_zero(SUBS[i], 'shortid') if i == 2 else None), usage={KeyFlags.EncryptCommunications})
+                if i == 3:
+                    # one key also has a signing subkey: signatures issued by a subkey select that subkey
+                    k.add_subkey(pool.pgpy_bare('ecdsa_p256_1'), usage={KeyFlags.Sign})
                 pub = pgpy.PGPKey.from_blob(bytes(k.pubkey))[0]
                 objs += [k, pub]
         _U = objs
@@ -381,16 +384,17 @@ def _subunload(ctx, d, pgpy, U):
                 ctx.count('subkey_only_unloads')
                 where = {'key': i // 2, 'unloaded_subkey_of': list(gone)}
                 for h in ('private', 'public'):
-                    e = {str(objs[h].fingerprint)} | ({str(list(objs[h].subkeys.values())[0].fingerprint)} if h not in gone else set())
+                    e = {str(objs[h].fingerprint)} | {str(x.fingerprint) for n_, x in enumerate(objs[h].subkeys.values()) if n_ > 0 or h not in gone}
                     g = {str(f) for f in kr.fingerprints(keyhalf=h)}
                     if e != g:
                         ctx.fail('fingerprints-filter-%s' % h, {'where': where, 'missing': sorted(e - g), 'extra': sorted(g - e)})
-                e_all = {str(priv.fingerprint)} | ({sfp} if len(gone) < 2 else set())
+                e_all = {str(priv.fingerprint)} | ({sfp} if len(gone) < 2 else set()) | {str(x.fingerprint) for x in list(priv.subkeys.values())[1:]}
                 g_all = {str(f) for f in kr.fingerprints()}
                 if e_all != g_all:
                     ctx.fail('fingerprints-differ-from-loaded-keys', {'where': where, 'missing': sorted(e_all - g_all), 'extra': sorted(g_all - e_all)})
-                if len(kr) != 4 - len(gone):
-                    ctx.fail('len-differs-from-loaded-objects', {'where': where, 'len': len(kr), 'expected': 4 - len(gone)})
+                total = 2 * (1 + len(priv.subkeys))
+                if len(kr) != total - len(gone):
+                    ctx.fail('len-differs-from-loaded-objects', {'where': where, 'len': len(kr), 'expected': total - len(gone)})
                 if (sfp in kr) != (len(gone) < 2):
                     ctx.fail('identifier-of-unloaded-key-still-in-keyring' if len(gone) == 2 else 'identifier-of-loaded-key-not-in-keyring', {'where': where, 'identifier': sfp})
                 try:
@@ -447,6 +451,26 @@ def _select(ctx, d, pgpy, U, sc):
                     ctx.fail('selection-by-%s-returns-unrelated-key' % what, {'loaded': list(combo), 'key': i, 'got': str(got.fingerprint)})
                 elif not (ids & want):
                     ctx.fail('selection-by-%s-returns-unrelated-key' % what, {'loaded': list(combo), 'key': i, 'got': str(got.fingerprint)})
+        # a signature issued by a signing SUBKEY: selection by the signature object, by its issuer id as text and by the signed message agree, and
+        # the component handed out is the one that issued it
+        priv, pub = U[6], U[7]
+        ssub = [x for x in priv.subkeys.values() if str(x.fingerprint) == str(pool.pgpy_bare('ecdsa_p256_1').fingerprint)][0]
+        ssig = ssub.sign('made by the subkey')
+        smsg2 = pgpy.PGPMessage.new('signed by the subkey', compression=CompressionAlgorithm.Uncompressed)
+        smsg2 |= ssub.sign(smsg2)
+        if any(x is priv or x is pub for x in loaded):
+            got_ids = {}
+            for what, ident in (('signature', ssig), ('issuer-id-text', ssig.signer), ('signed-message', smsg2)):
+                ctx.count('selections_checked')
+                ctx.count('subkey_issued_selections')
+                ctx.count('evaluations')
+                try:
+                    with kr.key(ident) as got:
+                        got_ids[what] = str(got.fingerprint)[-16:]
+                except Exception as e:
+                    ctx.fail('selection-by-signature-finds-nothing', {'loaded': list(combo), 'by': what, 'issuer': 'signing subkey', 'err': repr(e)[:120]})
+            if got_ids and (len(set(got_ids.values())) != 1 or set(got_ids.values()) != {ssig.signer}):
+                ctx.fail('selection-by-signature-returns-another-component-than-its-issuer', {'loaded': list(combo), 'selected': got_ids, 'issuer': ssig.signer})
         # messages that name several issuers (two recipients / two signers): a loaded one among them must be found whatever the others are
         for i, j in ((0, 2), (2, 4), (4, 6), (6, 0), (0, 4), (2, 6)):
             sk = bytes(range(32))
